@@ -272,6 +272,51 @@ theorem c16_sufficient_limiter_handler (u : Upstream) (c : Cluster) : ∃ u', up
   let ⟨u', h, _⟩ := upstreamConditionHandler_ok u c
   ⟨u', h⟩
 
+/-- no `uint32` wrap-around: a cluster created from an accepted object (whose numbers are `int32` values) has exactly
+    one limiter per schema, of the configured kind and with exactly the configured numbers, and no remote limiter -/
+theorem c16_created_limiters (env : Env) (henv : EnvOK env) (known : List Known) (c : Cluster)
+    (h : validate env known c = .ok []) (ht : ∀ s ∈ c.schemas, wellTyped s = true) (remote : Bool) :
+    ∃ ci, createClusterInfo env remote c = .ok ci ∧ ci.flowcontrol.flowControls = c.schemas.map entryOf :=
+  createClusterInfo_sizes env henv known c ((c16_accepts_iff_valid env known c).mp h) ht remote
+
+/-- what `entryOf` (`expectedLocal`) says in numbers: the limiter's size is the configured `max`, resp. `qps` and
+    `burst`, as integers -/
+theorem c16_expected_sizes (s : Schema) (h : schemaOK s = true) :
+    ∃ fc, (entryOf s).2.fc = some fc ∧
+      (∀ m, s.maxRequestsInflight = some m → fc.typ = .maxRequestsInflight ∧ (fc.n : Int) = m) ∧
+      (∀ t, s.tokenBucket = some t → fc.typ = .tokenBucket ∧ (fc.n : Int) = t.qps ∧ (fc.burst : Int) = t.burst) ∧
+      (s.exempt = true → fc.typ = .exempt) := by
+  obtain ⟨name, strategy, exempt, m, tb, gm, gtb⟩ := s
+  cases exempt <;> cases m <;> cases tb <;> cases gm <;> cases gtb <;>
+    simp [schemaOK, shapeOf, Shape.inRange] at h <;>
+    simp [entryOf, expectedLocal, shapeOf] <;> omega
+
+/-- the gateway's periodic reconcile with the limiter server (remote mode): a gateway that created the cluster from
+    an accepted object, against a limiter server that handled the same object, runs any number of periods
+    (`updateGlobalCuntFlowControls`, `buildLimitConditions`, the server's `UpdateRateLimitConditionStatus` incl.
+    `calculateUpstreamCondition`, `updateFlowControls`) without error or panic, whatever quotas the server computes and
+    whatever usage the gateway reports. The count path's guard (`Gen.C16.countPathGuarded`, regenerated from the
+    source) is what this proof rests on for `globalCount` schemas without a global limit. -/
+theorem c16_sufficient_reconcile (env : Env) (henv : EnvOK env) (known : List Known) (c : Cluster)
+    (h : validate env known c = .ok []) (ht : ∀ s ∈ c.schemas, wellTyped s = true)
+    (quota : Str → Int × Int) (used : Str → Int) (inst : Str) (n : Nat) :
+    ∃ ci u, createClusterInfo env true c = .ok ci ∧ upstreamConditionHandler emptyUpstream c = .ok u ∧
+      ∃ r, reconcileLoop quota used inst n (ci.flowcontrol.flowControls, u) = .ok r :=
+  reconcile_after_create env henv known c ((c16_accepts_iff_valid env known c).mp h) ht quota used inst n
+
+/-- the property's second sentence in one statement: an accepted object is applied by the gateway (controller
+    bootstrap in either mode, reconcile periods in remote mode) and by the limiter server (handler, status updates
+    inside the reconcile periods) without error or panic -/
+theorem c16_sufficient (env : Env) (henv : EnvOK env) (known : List Known) (c : Cluster)
+    (h : validate env known c = .ok []) (ht : ∀ s ∈ c.schemas, wellTyped s = true)
+    (m : Manager) (hm : ManagerReflects env known c m) (hnew : alGet m (env.lower c.name) = none)
+    (quota : Str → Int × Int) (used : Str → Int) (inst : Str) (n : Nat) :
+    (∀ remote, ∃ m', syncUpstreamCluster env remote m c = .ok m') ∧
+    (∃ ci u, createClusterInfo env true c = .ok ci ∧ upstreamConditionHandler emptyUpstream c = .ok u ∧
+      ∃ r, reconcileLoop quota used inst n (ci.flowcontrol.flowControls, u) = .ok r) :=
+  ⟨fun remote => c16_sufficient_controller env henv known c h remote m hm hnew,
+   c16_sufficient_reconcile env henv known c h ht quota used inst n⟩
+
 /-! ## Non-vacuity -/
 
 /-- "https://h" -/
@@ -325,8 +370,9 @@ example : valid exEnv [⟨[111], [[121]]⟩] exCluster = true := by
 /-- the hypotheses of the sufficiency theorems hold together for this object (it is accepted, the parsers are
     well-behaved, the empty manager reflects every lister): they are not vacuous -/
 example : validate exEnv [⟨[111], [[121]]⟩] exCluster = .ok [] ∧ ManagerReflects exEnv [⟨[111], [[121]]⟩] exCluster [] ∧
-    Applicable exEnv (newEmptyClusterInfo exEnv exCluster.name none false) := by
-  refine ⟨(c16_accepts_iff_valid _ _ _).mpr ?_, ?_, rfl⟩
+    Applicable exEnv (newEmptyClusterInfo exEnv exCluster.name none false) ∧
+    (∀ s ∈ exCluster.schemas, wellTyped s = true) := by
+  refine ⟨(c16_accepts_iff_valid _ _ _).mpr ?_, ?_, rfl, by decide⟩
   · simp [valid, usable, classes, exCluster, exSchemas, exEnv, endpointOK, sameScheme, schemeOf, exEndpoint_scheme,
       clientTLSOK, servingOK, schemaOK, shapeOf, Shape.inRange, namesOK, policyRefsOK, clientLimitsOK, formOK, strategyOK,
       logModeOK, featureGateOK, mapGet, noConflict]
